@@ -36,7 +36,7 @@ def gates(tier):
                         "cfg.expected_length": 40 * k},
         "shapes": {c: 3 * k for c in ["nonlinear_scc", "repeated_symbol", "duplicate_rule", "unary_cycle", "nullable_cycle",
                                       "recursive", "finite_language", "sr:Log", "sr:MaxPlus", "sr:Expectation", "sr:Entropy",
-                                      "sr:Real", "sr:Boolean", "sr:MaxTimes", "finite-language-sum", "staged-build", "log-tiny-weights"]} | {"big-slow-scc": 1},
+                                      "sr:Real", "sr:Boolean", "sr:MaxTimes", "finite-language-sum", "staged-build", "log-tiny-weights", "scale:big-grammar"]} | {"big-slow-scc": 1},
         "min_events": {"agenda.reordered": 200 * k},
         "min_hashseeds": 2,
     }
@@ -63,6 +63,11 @@ def gen_case(rng, spec):
         sc = Fr(1, 2 ** rng.choice([30, 50]))
         case["g"]["rules"] = [[w * sc if rng.random() < 0.5 else w, h, b] for w, h, b in case["g"]["rules"]]
         case["tiny"] = True
+    if rng.random() < 0.05:
+        # scale: 10-16 nonterminals in a deep hierarchy (unary chains of depth 6+, a head with 8-12 alternatives)
+        bigR = rng.choice(["Float", "Real", "Log", "Q", "Boolean", "MaxTimes", "MaxPlus"])
+        bg = GG.gen_big_grammar(rng, recursion=bigR != "Q")
+        return {"g": {k: bg[k] for k in ("S", "V", "rules")}, "R": bigR, "bigg": "big-grammar"}
     if rng.random() < 0.04:
         case = big_cycle_case(rng)
     if rng.random() < 0.25 and len(g["rules"]) >= 3:
@@ -113,6 +118,8 @@ def run_case(case, ctx):
         cls = list(cls) + ["big-slow-scc"]
     if case.get("tiny"):
         cls = list(cls) + ["log-tiny-weights"]
+    if case.get("bigg"):
+        cls = list(cls) + ["scale:" + case["bigg"]]
     ctx.case(fp, "recursive" in cls, list(cls) + [f"sr:{R}"])
     ctx.sample({"case": case, "classes": cls, "Z_S": lib.want_value(R, Z[g["S"]]) if not pair else [Z[g["S"]], rr[g["S"]]]})
     if case.get("staged"):
